@@ -264,7 +264,7 @@ impl FormFilter for (Option<i64>, String)
 fn expr(v: i64, rng: &mut Rng, d: &mut Defs, allow_defer: bool) -> (String, &'static str)
 {
 	if v == i64::MIN {return (lit(v, rng), "literal");}   // not writable as one literal in a `.const`
-	let pick = rng.below(if allow_defer {12} else {9});
+	let pick = rng.below(if allow_defer {15} else {9});
 	match pick
 	{
 		0 | 1 => (lit(v, rng), "literal"),
@@ -349,6 +349,50 @@ fn expr(v: i64, rng: &mut Rng, d: &mut Defs, allow_defer: bool) -> (String, &'st
 				Some(fv) => {let _ = write!(d.after, ".const {name}, {fv}; "); (text, "forward")},
 				None => {let _ = write!(d.after, ".const {name}, {v}; "); (name, "forward")},
 			}
+		},
+		12 | 13 | 14 if v.unsigned_abs() < 1 << 40 =>
+		{
+			// two (or three) names declared `.global` and defined BELOW the statement, and two or three literals, nested through + and -
+			// on both sides: the literals are merged across the unknown names while the statement waits
+			d.n += 1;
+			let (na, nb, nc) = (format!("ga{}", d.n), format!("gb{}", d.n), format!("gc{}", d.n));
+			let (a, b, c) = (rng.range(0, 4000), rng.range(0, 4000), rng.range(0, 4000));
+			let (c1, c2) = (rng.range(1, 40), rng.range(1, 40));
+			// (text with a hole for the outer literal, value without it)
+			let forms: [(String, i64); 10] = [
+				(format!("({na} - ({nb} + {c2}))"), a - (b + c2)),
+				(format!("({na} - ({nb} - {c2}))"), a - (b - c2)),
+				(format!("({na} - ({c2} + {nb}))"), a - (c2 + b)),
+				(format!("({na} + ({nb} - ({nc} + {c2})))"), a + (b - (c + c2))),
+				(format!("({na} - ({nb} - ({nc} - {c2})))"), a - (b - (c - c2))),
+				(format!("(({na} - {c1}) - ({nb} + {c2}))"), (a - c1) - (b + c2)),
+				(format!("({na} - ({nb} + {c2}) + {c1})"), a - (b + c2) + c1),
+				(format!("({c1} - ({na} - ({nb} + {c2})))"), c1 - (a - (b + c2))),
+				(format!("(({na} + {c1}) - (({nb} - {c2}) - {nc}))"), (a + c1) - ((b - c2) - c)),
+				(format!("(-({na} - ({nb} + {c2})))"), -(a - (b + c2))),
+			];
+			let (inner, iv) = &forms[rng.below(forms.len() as u64) as usize];
+			let k = v - iv;
+			let text = match rng.below(4)
+			{
+				0 => format!("{k} + {inner}"),
+				1 => if k >= 0 {format!("{inner} + {k}")} else {format!("{inner} - {}", -k)},
+				2 => format!("{inner} - {}", -(k as i128)),
+				_ => format!("{} + ({inner} - {})", k + 7, 7),
+			};
+			let text = text.replace("- -", "- (0 - ").replace("+ -", "+ (0 - ");
+			// close the parentheses opened by the replacement of a negative literal
+			let opened = text.matches("(0 - ").count();
+			let text = if opened > 0
+			{
+				// re-render without the shortcut: negative literals as `(0 - n)`
+				let lit = |x: i64| if x < 0 {format!("(0 - {})", -(x as i128))} else {format!("{x}")};
+				match rng.below(3) {0 => format!("{} + {inner}", lit(k)), 1 => format!("{inner} + {}", lit(k)), _ => format!("{} + ({inner} - 7)", lit(k + 7))}
+			}
+			else {text};
+			for n in [&na, &nb, &nc] {if inner.contains(n.as_str()) {let _ = write!(d.before, ".global {n}; ");}}
+			for (n, x) in [(&na, a), (&nb, b), (&nc, c)] {if inner.contains(n.as_str()) {let _ = write!(d.after, ".const {n}, {x}; ");}}
+			(text, "nested globals")
 		},
 		_ =>
 		{
